@@ -203,6 +203,24 @@ fn read(e: ast::Expr, tree: &syntax::SyntaxTree) -> Result<T, String> {
     })
 }
 
+/// the expression as the condition of an `if` (a `{` follows it, which is where the parser's
+/// lambda-vs-parenthesis lookahead matters)
+fn parse_condition(text: &str) -> Result<T, String> {
+    let src = format!("f :: () {{ if {text} {{ }} }}");
+    let tokens = lexer::lex(&src);
+    let parse = parser::parse_source_file(&tokens, &src);
+    if !parse.errors().is_empty() {
+        return Err(format!("syntax errors in {:?}: {:?}", src, parse.errors()));
+    }
+    let tree = parse.syntax_tree();
+    for n in tree.root().descendant_nodes(tree) {
+        if let Some(i) = ast::IfExpr::cast(n, tree) {
+            return read(i.condition(tree).ok_or("if without condition")?, tree);
+        }
+    }
+    Err("no if expression found".into())
+}
+
 fn parse_expr(text: &str, repl: bool) -> Result<T, String> {
     let tokens = lexer::lex(text);
     let parse = if repl { parser::parse_repl_line(&tokens, text) } else { parser::parse_source_file(&tokens, text) };
@@ -294,6 +312,19 @@ pub fn check_tree(ctx: &Ctx, t: &T, sp: &str) -> Result<(), (String, String)> {
         let again = print(&got, sp);
         if strip(&parse_expr(&if repl { again.clone() } else { format!("x :: {again};") }, repl).map_err(|e| ("C24:roundtrip-parse".to_string(), e))?) != want {
             return Err(("C24:roundtrip".into(), format!("print(parse({:?})) = {:?} parses to a different tree", src, again)));
+        }
+    }
+    // as an `if` condition, bare and inside one and two pairs of redundant parentheses
+    if !matches!(kind(&want), Kind::Primary) || matches!(t, T::Paren(_)) {
+        for wrapped in [text.clone(), format!("({text})"), format!("(({text}))")] {
+            let got = match catch(|| parse_condition(&wrapped)) {
+                Err(k) => return Err((k, format!("parser panicked on `if {wrapped} {{ }}`"))),
+                Ok(Err(why)) => return Err(("C24:does-not-parse:if-condition".into(), format!("`if {wrapped} {{ }}` (tree {:?}) did not parse cleanly: {why}", want))),
+                Ok(Ok(g)) => g,
+            };
+            if strip(&got) != want {
+                return Err((format!("{}:if-condition", shape_key(&want, &strip(&got))), format!("`if {wrapped} {{ }}`\n generated tree: {:?}\n parsed tree:    {:?}", want, strip(&got))));
+            }
         }
     }
     ctx.add_evals(1);
@@ -463,6 +494,10 @@ fn documented_cases() -> Vec<(&'static str, T)> {
         ("^T.(v)", T::Cast(b(T::Ref(false, b(id("T")))), b(id("v")))),
         ("~T.(v)", T::Pre("~", b(T::Cast(b(id("T")), b(id("v")))))),
         ("-T.(v)", T::Pre("-", b(T::Cast(b(id("T")), b(id("v")))))),
+        // parse_expr_for_prefix parses every prefix operand with `disallow_derefs = true`
+        ("-a^", T::Deref(b(T::Pre("-", b(id("a")))))),
+        ("!a.x^", T::Deref(b(T::Pre("!", b(T::Field(b(id("a")), "x".into())))))),
+        ("~f(p)^.y", T::Field(b(T::Deref(b(T::Pre("~", b(T::Call(b(id("f")), vec![id("p")])))))), "y".into())),
     ]
 }
 
